@@ -46,8 +46,9 @@ CLAIM = {
              "errors, non-UTF-8, missing root) are diffed against the model, and the oracle checks delivered == unsplit ledger, "
              "tags == containing file, reports/accounts/`okane primitive flatten`/`okane balance` equal to the unsplit ledger's. Character classes (third session): `[..]` / `[!..]` are inside the modelled fragment of the glob crate (the bracket arm of Pattern::new, "
              "parse_char_specifiers, in_char_specifiers): C11_class_matches (a class takes exactly one character, the one its specifiers describe, "
-             "never a leading dot, never a separator), C11_dotfile / C11_wildcard_no_separator extended to classes; only `**` is still answered "
-             "from the recorded glob results."),
+             "never a leading dot, never a separator), C11_dotfile / C11_wildcard_no_separator extended to classes; `**` (whole components only, "
+             "doubled, refused inside a component; spans directories, stops at one that begins with a dot) is modelled for the in-memory file "
+             "system - only the glob crate's recursive directory walk on disk is still answered from the recorded results."),
     "note": ("glob crate internals, std::fs::canonicalize (modelled as lexical resolution on a tree without symlinks), std::path "
              "component parsing/ordering are modelled, not verified. Patterns whose component starts with a literal dot followed by "
              "a wildcard (`.h*`) match on FakeFileSystem but never on ProdFileSystem (glob 0.3.2 drops dot entries for every "
@@ -465,6 +466,16 @@ def negative_cases(prefix):
     add("root.ledger", {"root.ledger": "include r[a-c-e]x.ledger\n", "rbx.ledger": "; b\n", "r-x.ledger": "; minus\n", "rex.ledger": "; e\n", "rdx.ledger": "; d\n"},
         dict(ok, delivered=3), "`a-c-e` is the range a-c, a minus sign and e")
     for bad in ("[!]", "[]", "x[a", "[", "a[!"):
+        add("root.ledger", {"root.ledger": "; a\n\ninclude %s.ledger\n" % bad}, {"fake": "InvalidIncludeGlob", "prod": "InvalidIncludeGlob", "delivered": 1},
+            "invalid pattern: `%s`" % bad)
+    # `**`: whole components only; spans directories, never enters one that begins with a dot; doubled; refused inside a component
+    add("root.ledger", {"root.ledger": "include r/**/*.ledger\n", "r/a.ledger": "; a\n", "r/m/b.ledger": "; b\n", "r/.git/c.ledger": "; hidden dir\n",
+                        "r/m/.d.ledger": "; hidden file\n"}, dict(ok, delivered=2), "`**` does not enter a dot-directory, `*` does not take a dot-file")
+    add("root.ledger", {"root.ledger": "include r/**/**/c.ledger\n", "r/c.ledger": "; c0\n", "r/m/n/c.ledger": "; c2\n", "r/m/xc.ledger": "; not c\n"},
+        dict(ok, delivered=2), "`**/**/` doubled")
+    add("m/root.ledger", {"m/root.ledger": "include ../r/**/x.ledger\n", "r/x.ledger": "; x0\n", "r/s/x.ledger": "; x1\n"}, dict(ok, delivered=2),
+        "`**` behind `..`")
+    for bad in ("a**/x", "r/**b/x", "r/***/x"):
         add("root.ledger", {"root.ledger": "; a\n\ninclude %s.ledger\n" % bad}, {"fake": "InvalidIncludeGlob", "prod": "InvalidIncludeGlob", "delivered": 1},
             "invalid pattern: `%s`" % bad)
     # the include line is the very last thing of the file (no line end after it)
